@@ -15,10 +15,11 @@ Dimensions (alphabet sizes quick | thorough):
                   <provider>, plus each boundary shape of the dot rule alone: "Trail." (only dot is the last character), "." (lone dot),
                   "..Two" (two leading dots), "A.B" (inner dot, no package-like prefix), "a" (one dot-less character); thorough: plus
                   every 2-subset of the 9 names
-  main   28       additional activities / activity-aliases carrying intent filters: none; MAIN+LAUNCHER on one activity (each of the
+  main   40       additional activities / activity-aliases carrying intent filters: none; MAIN+LAUNCHER on one activity (each of the
                   4 ordinary and 5 boundary names), on two (6 pairs), on activity + alias, on an alias only (dotted / dot-less alias name), on an enabled=false
                   activity (alone / next to an enabled one), enabled=true, MAIN without LAUNCHER, LAUNCHER without MAIN, MAIN and
-                  LAUNCHER in two different filters, extra actions/categories, LEANBACK_LAUNCHER only, disabled alias
+                  LAUNCHER in two different filters, extra actions/categories, LEANBACK_LAUNCHER only, disabled alias; real launcher activity {absolute, relative, bare name}
+                  x launcher alias of it sorting {before, after} x {one, two} launcher activities
   sdk    28       no <uses-sdk> element, or (min, target, max) in {absent, typed int, codename string "Q"}^3 (min 21, target 33, max 34)
   feat   16       subsets of {android.hardware.camera, android.hardware.touchscreen required=false, dot-less "nodotfeature",
                   <uses-feature glEsVersion> without a name}
@@ -100,7 +101,7 @@ MANIFEST = {
     "text": "Every manifest model that differs from an empty and from a rich base manifest in at most two of 14 dimensions "
             "(package with/without dot, typed/string version attributes, permission lists with duplicates, maxSdkVersion and "
             "dot-less names, all subsets of relative/dot-less/qualified component names plus the boundary shapes of the dot rule "
-            "('Trail.', '.', '..Two', 'A.B', 'a') for the four component kinds, 28 "
+            "('Trail.', '.', '..Two', 'A.B', 'a') for the four component kinds, 40 "
             "MAIN/LAUNCHER patterns incl. aliases and disabled activities, all 27+1 uses-sdk shapes incl. codenames, features, "
             "libraries, pool encodings, element orders) is built into a real APK and every query of the property is compared with the model "
             "under Android's name completion rule; on ~215 of the models the same judging is repeated after every single other manifest "
@@ -167,7 +168,21 @@ def main_alphabet():
     ]
     for n in EDGE_NAMES:
         out.append(("one-" + name_kind(n), [_act(n, [ML])]))
+    # real launcher activity next to a launcher activity-alias of it: {name form} x {alias sorts before / after} x {one / two
+    # launcher activities}  (the alias-less corners are the one-* / two patterns above)
+    for form, pre in (("absolute", "com.a."), ("relative", "."), ("bare", "")):
+        for pos, al in (("before", "AEntry"), ("after", "ZEntry")):
+            for n in (1, 2):
+                ents = [_act(pre + "MMain", [ML])] + ([_act(pre + "NSecond", [ML])] if n == 2 else []) + \
+                       [_alias(pre + al, pre + "MMain", [ML])]
+                out.append(("real-%s+alias-%s+%d-activit%s" % (form, pos, n, "y" if n == 1 else "ies"), ents))
     return out
+
+
+# The statement speaks of "the main activity" only; whether a launcher <activity-alias> may be reported although an enabled real
+# <activity> carries MAIN+LAUNCHER too is not fixed by it (for Android both are launcher entries).  Observed, not judged,
+# unless this switch is turned on (then: with such a real activity declared, get_main_activity() must name a declared activity).
+JUDGE_ALIAS_PREFERENCE = False
 
 
 MAIN_ALPHA = None
@@ -676,6 +691,15 @@ def judge(m, stats=None, history=()):
         elif (g1 is None) != (not M) or (g1 is not None and g1 not in M):
             out.append(("main_activity:" + tag, "get_main_activity() = %r but get_main_activities() = %r (completed %r)"
                         % (g1, sorted(gm), sorted(M))))
+        reals = {complete(pkg, n) for n in comp["activities"]}
+        if lower and g1 is not None and g1 not in reals:
+            if JUDGE_ALIAS_PREFERENCE and not any(k.startswith("main_activity:") for k, _ in out):
+                out.append(("main_activity:" + tag, "get_main_activity() = %r is no declared <activity> although %r carry "
+                            "MAIN+LAUNCHER (declared activities %r)" % (g1, sorted(lower), sorted(reals))))
+            if stats is not None:
+                stats("notjudged:alias-reported-as-main-activity-although-real-launcher-activity-declared")
+        elif lower and stats is not None and any(e["k"] == "alias" and e["en"] is not False and _is_ml_any(e) for e in m["main"]):
+            stats("notjudged:real-launcher-activity-preferred-over-launcher-alias")
         if stats is not None:
             stats("main:none" if g1 is None else "main:some")
             als = {complete(pkg, e["n"]) for e in m["main"] if e["k"] == "alias" and e["en"] is not False and _is_ml_any(e)}
@@ -892,6 +916,10 @@ def finalize(ctx, acc):
             acc.harness_error("vacuous: branch %r never exercised" % c)
     if len(acc.outcomes) < acc.n // 4:
         acc.harness_error("vacuous: only %d distinct observations for %d models" % (len(acc.outcomes), acc.n))
+    if not (acc.extra.get("notjudged:real-launcher-activity-preferred-over-launcher-alias", 0)
+            + acc.extra.get("notjudged:alias-reported-as-main-activity-although-real-launcher-activity-declared", 0)):
+        acc.harness_error("vacuous: no model with a real launcher activity next to a launcher alias was observed")
     acc.note("not judged: whether an activity-alias / an enabled=false activity / MAIN and LAUNCHER in different filters counts as "
-             "main activity (observed behaviour is counted in notjudged:*); effective target SDK with codename values beyond "
+             "main activity, and whether get_main_activity() prefers a real launcher activity over a launcher alias (the statement "
+             "does not fix it; JUDGE_ALIAS_PREFERENCE) (observed behaviour is counted in notjudged:*); effective target SDK with codename values beyond "
              "'int > 0'; get_declared_permissions, get_details_permissions, implied permissions; multiplicity of APK.uses_permissions")
